@@ -3523,3 +3523,248 @@ func checkValueWritten(c *Ctx, rule string) {
 		c.Unresolved(rule, "attributes written under a sqlx.Has guard in the marshallers")
 	}
 }
+
+// R16k: statements about a type name the type through the qualifier-aware helpers.
+const ruleTextTypeStmtIdent = "PostgreSQL type statements: the object of every `CREATE TYPE` / `ALTER TYPE` / `DROP TYPE` builder (the first thing written after Build(\"… TYPE\")) is the result of a qualifier-aware identifier helper (enumIdent, domainIdent, compositeIdent, typeIdent), directly or through a local with that definition — never Builder.Ident(<type>.T); otherwise the statement ignores the requested schema qualifier while the tables that use the type are written with it"
+
+func checkTypeStmtIdent(c *Ctx, rule string) {
+	n := 0
+	isIdentHelper := func(info *types.Info, e ast.Expr) bool {
+		call, ok := ast.Unparen(e).(*ast.CallExpr)
+		if !ok {
+			return false
+		}
+		fn := calleeOf(info, call)
+		return fn != nil && fn.Pkg() != nil && fn.Pkg().Path() == pPostgres && strings.HasSuffix(fn.Name(), "Ident") && recvTypeName(fn) == "state"
+	}
+	c.AllFuncs(false, func(fi *FuncInfo) {
+		if fi.Pkg.PkgPath != pPostgres {
+			return
+		}
+		info := fi.Info()
+		kf := 0
+		pm := parentMap(fi.Decl)
+		ast.Inspect(fi.Decl.Body, func(m ast.Node) bool {
+			call, ok := m.(*ast.CallExpr)
+			if !ok || len(call.Args) != 1 {
+				return true
+			}
+			fn := calleeOf(info, call)
+			if fn == nil || fn.Name() != "Build" {
+				return true
+			}
+			k, ok := stringConst(info, call.Args[0])
+			if !ok || !strings.HasSuffix(k, " TYPE") {
+				return true
+			}
+			// the next call of the chain: parent selector → parent call
+			var next *ast.CallExpr
+			if se, ok := pm[call].(*ast.SelectorExpr); ok {
+				next, _ = pm[se].(*ast.CallExpr)
+			}
+			if next == nil {
+				// b := s.Build(…); b.P(name, …) later: find the first method call on the assigned variable
+				if as, ok := pm[call].(*ast.AssignStmt); ok && len(as.Lhs) == 1 {
+					if id, ok := as.Lhs[0].(*ast.Ident); ok {
+						obj := info.ObjectOf(id)
+						ast.Inspect(fi.Decl.Body, func(q ast.Node) bool {
+							if ce, ok := q.(*ast.CallExpr); ok && next == nil && ce.Pos() > as.End() {
+								if se, ok := ce.Fun.(*ast.SelectorExpr); ok {
+									if r := rootIdent(se.X); r != nil && info.ObjectOf(r) == obj {
+										next = ce
+									}
+								}
+							}
+							return true
+						})
+					}
+				}
+			}
+			n++
+			kf++
+			c.funcs[fi.Name] = true
+			good := false
+			what := "nothing is written after it"
+			if next != nil && len(next.Args) > 0 {
+				what = types.ExprString(next.Fun) + "(" + types.ExprString(next.Args[0]) + ", …)"
+				a := next.Args[0]
+				if isIdentHelper(info, a) {
+					good = true
+				} else if id, ok := ast.Unparen(a).(*ast.Ident); ok {
+					obj := info.ObjectOf(id)
+					defs, ok2 := 0, 0
+					ast.Inspect(fi.Decl.Body, func(q ast.Node) bool {
+						switch d := q.(type) {
+						case *ast.AssignStmt:
+							if len(d.Lhs) == len(d.Rhs) {
+								for i, l := range d.Lhs {
+									if lid, ok := l.(*ast.Ident); ok && info.ObjectOf(lid) == obj {
+										defs++
+										if isIdentHelper(info, d.Rhs[i]) {
+											ok2++
+										}
+									}
+								}
+							}
+						case *ast.ValueSpec:
+							for i, nm := range d.Names {
+								if info.ObjectOf(nm) == obj && i < len(d.Values) {
+									defs++
+									if isIdentHelper(info, d.Values[i]) {
+										ok2++
+									}
+								}
+							}
+						}
+						return true
+					})
+					good = defs > 0 && defs == ok2
+				}
+				if se, ok := next.Fun.(*ast.SelectorExpr); ok && se.Sel.Name == "Ident" {
+					good = false
+				}
+			}
+			c.Check(rule, fmt.Sprintf("%s|%s statement %d names the type through an ident helper", fi.Name, k, kf), call.Pos(), good, "%s builds a %q statement whose object is written by %s, not by a qualifier-aware identifier helper: with a requested schema qualifier the statement addresses the type in the connection's default schema while the tables using it are qualified", fi.Name, k, what)
+			return true
+		})
+	})
+	if n < 3 {
+		c.Unresolved(rule, "builders of TYPE statements in the PostgreSQL planner (fewer than 3)")
+	}
+}
+
+// R16l: a column type written by the PostgreSQL planner is formatted with the qualifier.
+const ruleTextTypeTextQualified = "column types are formatted with the qualifier: in the methods of the PostgreSQL planner state, the text written after the keyword TYPE (Builder.P(\"TYPE\", f)) comes from (*state).formatType / an identifier helper, or from FormatType applied to a value whose static type is a concrete built-in type (e.g. the integer type of a serial); FormatType of an arbitrary schema.Type prints enum, domain and composite names without the requested schema qualifier"
+
+func checkTypeTextQualified(c *Ctx, rule string) {
+	n := 0
+	c.AllFuncs(false, func(fi *FuncInfo) {
+		if fi.Pkg.PkgPath != pPostgres || recvName(fi.Decl) != "state" {
+			return
+		}
+		info := fi.Info()
+		kf := 0
+		goodSource := func(e ast.Expr) bool {
+			call, ok := ast.Unparen(e).(*ast.CallExpr)
+			if !ok {
+				return false
+			}
+			fn := calleeOf(info, call)
+			if fn == nil {
+				return false
+			}
+			if recvTypeName(fn) == "state" && (fn.Name() == "formatType" || strings.HasSuffix(fn.Name(), "Ident")) {
+				return true
+			}
+			if fn.Name() == "FormatType" && len(call.Args) == 1 {
+				// concrete (non-interface) argument type
+				if t := info.TypeOf(call.Args[0]); t != nil {
+					if _, isIface := t.Underlying().(*types.Interface); !isIface {
+						return true
+					}
+				}
+			}
+			return false
+		}
+		ast.Inspect(fi.Decl.Body, func(m ast.Node) bool {
+			call, ok := m.(*ast.CallExpr)
+			if !ok || len(call.Args) != 2 || !onBuilder(info, call) {
+				return true
+			}
+			if k, ok := stringConst(info, call.Args[0]); !ok || k != "TYPE" {
+				return true
+			}
+			n++
+			kf++
+			c.funcs[fi.Name] = true
+			good := goodSource(call.Args[1])
+			if id, ok := ast.Unparen(call.Args[1]).(*ast.Ident); ok && !good {
+				obj := info.ObjectOf(id)
+				defs, ok2 := 0, 0
+				ast.Inspect(fi.Decl.Body, func(q ast.Node) bool {
+					if as, ok := q.(*ast.AssignStmt); ok {
+						for i, l := range as.Lhs {
+							if lid, ok := l.(*ast.Ident); ok && info.ObjectOf(lid) == obj && lid.Pos() < call.Pos() {
+								var rhs ast.Expr
+								if len(as.Rhs) == len(as.Lhs) {
+									rhs = as.Rhs[i]
+								} else if len(as.Rhs) == 1 && i == 0 {
+									rhs = as.Rhs[0]
+								}
+								if rhs != nil {
+									defs++
+									if goodSource(rhs) {
+										ok2++
+									}
+								}
+							}
+						}
+					}
+					return true
+				})
+				good = defs > 0 && defs == ok2
+			}
+			c.Check(rule, fmt.Sprintf("%s|TYPE write %d uses the qualifier-aware formatter", fi.Name, kf), call.Pos(), good, "%s writes `TYPE %s` with a text that does not come from (*state).formatType: a user-defined type (enum, domain, composite) is printed without the requested schema qualifier in this statement while the column clause of the same plan qualifies it", fi.Name, types.ExprString(call.Args[1]))
+			return true
+		})
+	})
+	if n < 3 {
+		c.Unresolved(rule, "writes of `TYPE <type>` in the PostgreSQL planner (fewer than 3)")
+	}
+}
+
+// R16m: the qualifier prefix is not conditional on the object's own schema.
+const ruleTextPrefixUnconditional = "the requested qualifier applies to objects without a schema too: a call of (*state).schemaPrefix(x) / typeIdent(x, …) in the PostgreSQL planner is not guarded by a nil test of its own argument x (the helpers accept nil and return the requested qualifier first); such a guard drops a custom qualifier from the statement exactly when the object carries no schema of its own"
+
+func checkPrefixUnconditional(c *Ctx, rule string) {
+	n := 0
+	c.AllFuncs(false, func(fi *FuncInfo) {
+		if fi.Pkg.PkgPath != pPostgres {
+			return
+		}
+		info := fi.Info()
+		kf := 0
+		pm := parentMap(fi.Decl)
+		ast.Inspect(fi.Decl.Body, func(m ast.Node) bool {
+			call, ok := m.(*ast.CallExpr)
+			if !ok || len(call.Args) < 1 {
+				return true
+			}
+			fn := calleeOf(info, call)
+			if fn == nil || recvTypeName(fn) != "state" || (fn.Name() != "schemaPrefix" && fn.Name() != "typeIdent") {
+				return true
+			}
+			if fi.Obj == fn {
+				return true
+			}
+			n++
+			kf++
+			c.funcs[fi.Name] = true
+			arg := types.ExprString(ast.Unparen(call.Args[0]))
+			bad := false
+			for _, f := range enclosingFacts(pm, call) {
+				be, ok := ast.Unparen(f.expr).(*ast.BinaryExpr)
+				if !ok || (be.Op != token.NEQ && be.Op != token.EQL) {
+					continue
+				}
+				var other ast.Expr
+				switch {
+				case isNilIdent(info, be.Y):
+					other = be.X
+				case isNilIdent(info, be.X):
+					other = be.Y
+				default:
+					continue
+				}
+				if types.ExprString(ast.Unparen(other)) == arg && (be.Op == token.NEQ) == f.val {
+					bad = true
+				}
+			}
+			c.Check(rule, fmt.Sprintf("%s|%s(%s) call %d not guarded by %s != nil", fi.Name, fn.Name(), arg, kf, arg), call.Pos(), !bad, "%s writes the schema prefix only when %s != nil: for an object without a schema of its own the requested custom qualifier is dropped from this statement (typically the reverse statement) although the forward statement carries it", fi.Name, arg)
+			return true
+		})
+	})
+	if n < 3 {
+		c.Unresolved(rule, "calls of schemaPrefix / typeIdent in the PostgreSQL planner (fewer than 3)")
+	}
+}
